@@ -136,6 +136,9 @@ def diff_reports(model: dict, impl: dict) -> list[str]:
     return d
 
 
+from exabgp.bgp.message.update.attribute import AttributeCollection  # noqa: E402
+
+
 def outcome(S: wirerig.Session, body: bytes, model_line: str) -> tuple[str, dict, dict | None]:
     """(what, details, impl result): '' when the real path reports exactly the reference reading."""
     model = wirerig.report_of_line(model_line)
@@ -572,11 +575,48 @@ def run(ctx: Ctx) -> None:
                 ctx.failures.append(Failure('update-class', canon, rp, f'the harness could not interpret what the implementation produced for this input ({type(e).__name__}: {str(e)[:200]} at {where}): the correspondence is broken on it'))
     if drv is not None:
         drv.close()
+    repeat_stream(ctx, sessions, [c for c in cases if c['origin'] == 'generated'], 400 if quick else 8000)
     malformed_stream(ctx, sessions, [c for c in cases if c['origin'] == 'generated'], 300 if quick else 3000)
     for k, v in seen_sig.items():
         ctx.notes.append(f'failure class {k[0]} {k[1]}: {v} case(s)')
     ctx.extra['recorded_messages'] = len(rec)
     ctx.extra['session_shapes'] = [S.shape() for S in sessions]
+
+
+def repeat_stream(ctx: Ctx, sessions: list, cases: list, n: int) -> None:
+    """The same well-formed UPDATE arriving again (a peer re-sending it, two route reflectors sending the same
+    block): it is reported exactly as the first time.  The first decode starts from an empty attribute cache (and was
+    compared with the reference above); the repeats find what their predecessor left."""
+    rng = ctx.rng
+    if not cases:
+        return
+    picks = cases if len(cases) <= n else rng.sample(cases, n)
+    seen: set = set()
+    for c in picks:
+        if ctx.time_left() < 12:
+            break
+        S = sessions[c['s']]
+        first = S.decode(c['body'])
+        if first['kind'] != 'ok' or not first.get('report'):
+            continue
+        ctx.evaluations += 1
+        ctx.count('repeat:decoded-three-times')
+        for k in (1, 2):
+            again = S.decode(c['body'], fresh=False)
+            if again['kind'] == 'ok' and again.get('report') == first['report']:
+                continue
+            what = 'repeat-differs'
+            fields = sorted(f for f in ('eor', 'ann', 'wd', 'attrs') if again.get('report') is None or again['report'].get(f) != first['report'].get(f)) if again['kind'] == 'ok' else [again['kind']]
+            canon = {'what': what, 'fields': fields, 'mp': any(a['code'] in (14, 15) for a in c['sem']['a']) if 'sem' in c else None}
+            key = json.dumps(canon, sort_keys=True)
+            ctx.count('fail:repeat-differs')
+            if key in seen:
+                break
+            seen.add(key)
+            ctx.failures.append(Failure('update-class', canon, {'shape': S.shape() | {'addpath': S.addpath, 'extnh': S.extnh}, 'body': c['body'].hex(), 'repeat': k}, f'the same UPDATE decoded again (repeat {k}) is reported differently: {fields}; first {json.dumps({f: first["report"].get(f) for f in ("ann", "wd")}, default=str)[:300]} then {json.dumps({f: (again.get("report") or {}).get(f) for f in ("ann", "wd")}, default=str)[:300]}'))
+            break
+    AttributeCollection.cached = None
+    AttributeCollection.previous = b''
 
 
 def malformed_stream(ctx: Ctx, sessions: list, cases: list, n: int) -> None:
@@ -614,6 +654,17 @@ def replay(path: str) -> int:
     rp = data['replay']
     sh = rp['shape']
     S = wirerig.Session(addpath=[tuple(x) for x in sh['addpath']], asn4=sh['asn4'], extnh=[tuple(x) for x in sh['extnh']])
+    if rp.get('repeat'):
+        body = bytes.fromhex(rp['body'])
+        first = S.decode(body)
+        bad = 0
+        print('first  :', json.dumps({f: first.get('report', {}).get(f) for f in ('ann', 'wd', 'attrs')}, default=str)[:600])
+        for k in (1, 2):
+            again = S.decode(body, fresh=False)
+            same = again['kind'] == 'ok' and again.get('report') == first.get('report')
+            print(f'repeat {k}:', 'same' if same else json.dumps({f: (again.get('report') or {}).get(f) for f in ('ann', 'wd', 'attrs')}, default=str)[:600])
+            bad += not same
+        return 1 if bad else 0
     drv = common.Driver('drv_wire')
     try:
         if 'sem' in rp:
